@@ -573,3 +573,7 @@ package main
 //@   safe
 //@   loop 2
 //@     invariant [C19] count: len(dst) <= #idx && #idx <= len(src)
+
+// Bounded stand-in (not a proof): normalizeTags against the tag rules on every pair of strings of length <= 3 over
+// {a, B, space, 1, -}, with the tag-count limit set to 1 and to 2 (156 x 156 x 2 lists).
+//@ bounded [C19] tags_normalised: i int in 0..155, j int in 0..155, m int in 1..2 :: verifNormalizedOK([]string{verifNthString(i, "aB 1-"), verifNthString(j, "aB 1-")}, m)
